@@ -158,6 +158,21 @@ PROPS = {
                         "measured dm/dspr of a discretised cos^2s spreading equal the requested ones only approximately: not claimed",
                         "cartwright: sum of the un-normalised spreading is non-zero (precondition)"],
     },
+    "C09": {
+        "level": "other",
+        "engines": [{"kind": "pyse"}],
+        "explanation": "PROVED for all inputs (z3): is_overlap is true exactly when the open interiors of the rectangles intersect; waveage's "
+        "mask is, at every position/frequency/direction, celerity(f, depth) <= agefac*wspd*cos(dir - wdir) (celerity by its own contract: "
+        "1.56/f or omega/k with the Chen-Thomson k). BOUNDED (run-time contracts of the real accessor methods with independent oracles on "
+        "seeded datasets with rolled/descending direction storage, every run): ptm4 assigns each bin by that rule, parts disjoint and summing "
+        "to the input, coordinates sorted; bbox gives each box exactly its bins (omitted limits = grid extremes), remainder last, overlapping "
+        "boxes rejected, query dicts untouched; split keeps the band unchanged, removes the rest, inserts the linear interpolant at off-grid "
+        "cutoffs, rejects fmax <= fmin; stats with limits equal stats of the split spectrum; ptm5 is zero beyond the cutoff and one factor per "
+        "spectrum elsewhere (1 on a grid cutoff).",
+        "trusted_base": ["independent numpy oracles in contracts/splits.py"],
+        "assumptions": ["accessor-level methods (sortby / label slicing / concat) are not proved symbolically: bounded replays only"],
+        "technique": "contract-based deductive verification of the mask kernels (is_overlap, waveage, celerity) + run-time contracts with independent oracles for the accessor methods (bounded)",
+    },
 }
 
 _PENDING = "not yet brought under contract in the current build round (see DESIGN.md section 8 for the order of work)"
